@@ -4,6 +4,8 @@ mod file_id;
 mod file_uri_handler;
 mod loader;
 mod virtual_url;
+#[cfg(feature = "verif")]
+mod verif;
 
 pub use collect_workspace_files::*;
 pub use document::LuaDocument;
